@@ -108,7 +108,7 @@ def bodyPrefix (m : Media) : Nat → Nat → Nat → List Bytes → List Bytes
 
 /-- `CatalogEntry::has_name` -/
 def Entry.hasName (e : Entry) (p : ParsedName) : Bool :=
-  p.dir == e.directory && ciEqual p.name (rtrimB e.nameStr)
+  toLowerC p.dir == toLowerC e.directory && ciEqual p.name (rtrimB e.nameStr)
 
 def Catalog.find (c : Catalog) (p : ParsedName) : Option Entry := c.entries.find? (·.hasName p)
 
